@@ -19,6 +19,12 @@
     protocol: it dereferences / compares `Terminal` as if it were an element, or calls a method `Terminal` does not
     have — undefined behaviour or a stray exception), `hang` (a C loop that does not terminate; only reached with
     the fuel of `Filter` exhausted).
+  * `get` is the pure function index ↦ element; what a call of `get` does to a walk IN PROGRESS is modelled separately
+    (`getSt`: the caller keeps its cursor — a `foreach` body calling `get`; `getCur`: the caller adopts the object returned
+    as its cursor — Map_Get, Zip_Get): Range_Get writes the Int cell the walk increments, Map_Get overwrites `m->curr`,
+    Zip_Get the `values` tuple; `Iterable.forwardWith` is foreach with such calls in its body.  `inObject` / `oneCell` say
+    whether the cursor lives inside the object (two walks over one object share it: `zipSameI`) and whether one mutable
+    cell is handed out every time.
   * sizes are `Nat`, `int64_t` is `Int` (no wrap-around: assumption "all counts and Range values stay below 2^63").
   Core Lean only (the driver links against this file).
 
